@@ -266,8 +266,9 @@ def tasks(tier):
         shapes += [((2, 3), 1), ((3, 1), 2), ((4, 2), 3), ((1, 1), 1), ((2, 1, 3), 1), ((1, 2, 2), 2), ((3, 2, 2), 1), ((2, 2, 2), 3),
                    ((2, 1, 2, 2), 1), ((1, 2, 1, 3), 2), ((2, 2), 4)]
     for n, nv in shapes:
+        # 4-d: a third of the 24 integration orders (each order is a product of four symbolic cell sizes; all of them take an hour)
         t.append(dict(harness="h_integrate", cfg=dict(n=list(n), nvdim=nv, dims="renamed" if len(n) % 2 else "default",
-                                                      all_orders=(tier != "quick"), listarg=bool(sum(n) % 2))))
+                                                      all_orders=(tier != "quick" and len(n) < 4), listarg=bool(sum(n) % 2))))
     lin = [((3,), 1, 0), ((2, 2), 2, 1), ((2, 1, 2), 1, 2)] if tier == "quick" else [((3,), 2, 0), ((2, 3), 2, 1), ((3, 2), 1, 0), ((2, 1, 2), 1, 2), ((2, 2, 2), 2, 1), ((2, 1, 2, 1), 1, 2)]
     for n, nv, ax in lin:
         t.append(dict(harness="h_linear_translate", cfg=dict(n=list(n), nvdim=nv, axis=ax)))
